@@ -162,6 +162,27 @@ def c29(ck, F, tier):
     guarded(ck, ra.row_flow, F)
 
 
+def c11(ck, F, tier):
+    import rules_panic as pn
+    ck.explanation = (
+        "Static decision of panic-freedom of the text entry points, site by site. (PANIC) every potentially panicking MIR "
+        "terminator reachable in the call graph from Parser::parse / parse_at_cursor, get_tokens*, cycle_reference, "
+        "format_number, parse_formatted_number, Model::set_user_input / formula_completion / cycle_reference (stopping at "
+        "Model::evaluate, spreadsheet functions excluded) is inventoried: bounds checks, slice/Vec/str indexing and range "
+        "slicing, unsigned subtraction, division by zero, unwrap/expect, explicit panics, positional Vec/String mutators. "
+        "Each site is discharged by a zone (difference-bound) abstract interpretation of its body -- flow-sensitive, with "
+        "type-keyed havoc of memory terms from the whole-program effect summaries, guard refinement, widening at loop heads, "
+        "trace partitioning on bool flags and returned Option/Result variants, callee summaries per returned variant, "
+        "Range iterators, chrono value ranges -- or by data obligations on the decoded language/locale tables, or it is "
+        "listed as ASSUMED with the reason (11 sites), or reported. (PRE) entry conditions assumed for private functions hold "
+        "at every call site. Signed overflow and allocation failure are not armed (release builds wrap). Not decided: "
+        "termination, stack depth of the recursive-descent parser, panics inside spreadsheet functions and evaluation.")
+    ck.rule("PANIC", "every reachable panic site is discharged, assumed with a reason, or reported", floor=150)
+    ck.rule("PRE", "assumed entry conditions of private functions hold at all call sites", floor=4)
+    guarded(ck, pn.panic_rule, F, "PANIC", pn.C11_ENTRIES, pn.C11_STOPS, pn.C11_EXCEPTIONS)
+    guarded(ck, pn.pre_rule, F)
+
+
 def c10(ck, F, tier):
     import rules_pcfg as rp
     ck.explanation = (
@@ -496,7 +517,7 @@ def c24(ck, F, tier):
     guarded(ck, rn.error_tables, F, load_tables(F))
 
 
-PROPS = {"C08": c08, "C24": c24, "C07": c07, "C06": c06, "C18": c18, "C32": c32, "C30": c30, "C27": c27, "C31": c31, "C33": c33, "C12": c12, "C13": c13, "C14": c14, "C15": c15, "C16": c16, "C09": c09, "C22": c22, "C34": c34, "C21": c21, "C05": c05, "C28": c28, "C10": c10, "C29": c29, "C17": c17, "C01": c01, "C02": c02, "C03": c03, "C04": c04, "C23": c23, "C26": c26}
+PROPS = {"C11": c11, "C08": c08, "C24": c24, "C07": c07, "C06": c06, "C18": c18, "C32": c32, "C30": c30, "C27": c27, "C31": c31, "C33": c33, "C12": c12, "C13": c13, "C14": c14, "C15": c15, "C16": c16, "C09": c09, "C22": c22, "C34": c34, "C21": c21, "C05": c05, "C28": c28, "C10": c10, "C29": c29, "C17": c17, "C01": c01, "C02": c02, "C03": c03, "C04": c04, "C23": c23, "C26": c26}
 
 
 def run(pid, tier):
